@@ -327,7 +327,73 @@ def build_grown(spec, rng, theta, k, backend="lambda"):
     for (s_, eq), n in zip(spec["odes"], need_o):
         if n >= k:
             m.add_ode(Transition(origin=s_, equation=eq, transition_type="ODE"))
+    evaluate_unrelated_model()      # another, unrelated model object uses its evaluators before the grown model is evaluated again
     return m, first + later
+
+
+_UNRELATED = []
+
+
+def evaluate_unrelated_model():
+    """One small fixed model per process (recompile flags, caches and lookup tables must be per model object): every evaluator of it is
+    called; it never changes."""
+    import numpy as np
+    from pygom import Event, SimulateOde, Transition
+    from pygom.model import ode_utils
+    if not _UNRELATED:
+        b = SimulateOde(state=["H", "G"], param=["r1", "r2"],
+                        event=[Event(rate="r1*H", transition_list=[Transition(origin="H", destination="G", transition_type="T")]),
+                               Event(rate="r2*G", transition_list=[Transition(origin="G", transition_type="D")])],
+                        ode=[Transition(origin="H", equation="r2 - 0.1*H", transition_type="ODE")])
+        b._SC = ode_utils.compileCode(backend="lambda")
+        b.parameters = [0.7, 0.3]
+        _UNRELATED.append(b)
+    b = _UNRELATED[0]
+    x = np.array([3.0, 2.0])
+    return [getattr(b, e)(x, 0.5) for e in ("ode", "jacobian", "grad", "vMat", "eventRateVector", "pureOdeVector", "transitionMean")]
+
+
+def rejected_mutations(m, spec, rng):
+    """Mutator calls that are (rightly) refused - a birth/death handed to add_transition, a between-state transition handed to
+    add_birth_death, a Transition naming an unknown state - must leave the model exactly as it was.  Returns the number refused."""
+    from pygom import Transition
+    st, ps = spec["states"], spec["params"]
+    n = 0
+    tries = [lambda: m.add_transition(Transition(origin=rng.choice(st), equation="%s*%s" % (rng.choice(ps), rng.choice(st)), transition_type=rng.choice(["B", "D"]))),
+             lambda: m.add_transition("not a transition"),
+             lambda: m.add_birth_death("not a transition")]
+    if len(st) >= 2:
+        tries.append(lambda: m.add_birth_death(Transition(origin=st[0], destination=st[1], equation="%s*%s" % (rng.choice(ps), st[0]), transition_type="T")))
+    for f in rng.sample(tries, rng.randint(1, len(tries))):
+        try:
+            f()
+        except Exception:
+            n += 1
+    return n
+
+
+def permuted_twin_spec(spec, rng):
+    """The same definition with states and parameters DECLARED in another order (rate strings untouched)."""
+    lim = spec.get("limits")
+    if (lim and not isinstance(lim, (list, tuple))) or str(spec.get("state_decl", "")).startswith("range") or len(spec["states"]) + len(spec["params"]) < 3:
+        return None
+    s2 = dict(spec)
+    st, ps = list(spec["states"]), list(spec["params"])
+    for _ in range(5):
+        rng.shuffle(st)
+        rng.shuffle(ps)
+        if st != spec["states"] or ps != spec["params"]:
+            break
+    else:
+        return None
+    s2["states"], s2["params"] = st, ps
+    if lim:
+        s2["limits"] = [lim[spec["states"].index(x)] for x in st]
+    if spec.get("state_real"):
+        s2["state_real"] = [spec["state_real"][spec["states"].index(x)] for x in st]
+    if spec.get("param_real"):
+        s2["param_real"] = [spec["param_real"][spec["params"].index(x)] for x in ps]
+    return s2
 
 
 def permuted_spec(spec, order):
